@@ -357,12 +357,13 @@ theorem all_lower_not_all_upper {t : Str} (hne : t ≠ []) (h : t.all isLowerN =
     | false => simp [hu]
     | true => rw [upper_lower_disjoint hu] at h; cases h.1
 
-theorem vonScan_eq (toks : List Tok) : vonScan toks = decide (tokCaseOf toks = .lower) := by
-  induction toks with
-  | nil => simp [vonScan, tokCaseOf]
+theorem vonScanFrom_eq (b : Bool) (toks : List Tok) :
+    vonScanFrom b toks = decide (tokCaseFrom b toks = .lower) := by
+  induction toks generalizing b with
+  | nil => simp [vonScanFrom, tokCaseFrom]
   | cons a r ih =>
     obtain ⟨t, l⟩ := a
-    simp only [vonScan, tokCaseOf]
+    simp only [vonScanFrom, tokCaseFrom]
     split
     · rename_i hc
       cases hl : t.all isLowerN with
@@ -370,7 +371,16 @@ theorem vonScan_eq (toks : List Tok) : vonScan toks = decide (tokCaseOf toks = .
       | true => simp [all_lower_not_all_upper hc.2.1 hl]
     · split
       · exact specialCharIsLower_eq t
-      · exact ih
+      · exact ih _
+
+theorem vonScan_eq (toks : List Tok) : vonScan toks = decide (tokCaseOf toks = .lower) :=
+  vonScanFrom_eq false toks
+
+/-- the first token is a brace-level-0 letter: it decides -/
+theorem tokCaseOf_cons_letter {c : Char} (toks : List Tok) (ha : isAlphaN c = true) :
+    tokCaseOf (([c], 0) :: toks) =
+      if isUpperN c then .upper else if isLowerN c then .lower else .caseless := by
+  simp [tokCaseOf, tokCaseFrom, ha]
 
 theorem scan_cons_plain (c : Char) (r : Str) (h1 : c ≠ '{') (h2 : c ≠ '}') :
     scan (c :: r) = (scan r).map (([c], 0) :: ·) := by
@@ -436,7 +446,7 @@ theorem tokenCase_eq_scan (tok : Str)
       | some toks' =>
         simp only [hr, Option.map_some, Option.some.injEq] at hs
         subst hs
-        simp [tokenCase, charCase, hu, tokCaseOf, ha]
+        simp [tokenCase, charCase, hu, tokCaseOf_cons_letter _ ha]
     | false =>
       cases hl : isLowerN c with
       | false => rw [tokenCase_uncased_first hu hl, hs]
@@ -448,7 +458,7 @@ theorem tokenCase_eq_scan (tok : Str)
         | some toks' =>
           simp only [hr, Option.map_some, Option.some.injEq] at hs
           subst hs
-          simp [tokenCase, charCase, hu, hl, tokCaseOf, ha]
+          simp [tokenCase, charCase, hu, hl, tokCaseOf_cons_letter _ ha]
 
 /-- a token that does not scan (braces nested deeper than the limit) and does not start with a
 cased character has no case -/
